@@ -17,6 +17,9 @@ func init() {
 			"destinations and issue multisets (logical field, code, type) must be equal across front ends; non-trivial iff >=3 front ends were compared on a record with >=2 leaves; distinct by hash of (schema, record, I/O scripts, decision vectors)"})
 }
 
+var floatLiterals = []string{"16777217.0000000001", "16777216.9999999999", "1.00000005960464478", "1.00000017881393433", "0.1000000000000000055511151231257827",
+	"33554434.00000000001", "8388608.50000000001", "7.006492321624085e-46", "1.401298464324817e-45", "3.4028235677973366e38", "0.30000000000000004", "9007199254740993", "1e23", "2.5000000000000001"}
+
 func genC14(r *Rng, tier string) *World {
 	w := &World{Prop: "C14", Cfg: DrawDecCfg(r), Params: map[string]int{}}
 	c := DrawGenCfg(r, "parse")
@@ -27,6 +30,7 @@ func genC14(r *Rng, tier string) *World {
 	c.NoCoerceVariants = true
 	c.PAbsent = 0
 	c.PBadType = 0
+	c.Widths = r.P(0.4)
 	fam := Pick(r, []string{"flat", "flat", "nested-json", "nested-flat", "ptr-root", "gostruct"})
 	w.Family = fam
 	ptrRoot := fam == "ptr-root"
@@ -191,6 +195,13 @@ func genC14(r *Rng, tier string) *World {
 				// two values for a field that holds one (a parameter sent twice): every front end hands over the same list
 				scalarLists = true
 				return VL(genTyped(r, n.Kind), genTyped(r, n.Kind)), true
+			}
+			if n.Kind == "float" && !goStruct && r.P(0.08) {
+				// a number written with more digits than a float64 keeps (half-way cases of the narrower type among them):
+				// every front end reads the text as a float64 first
+				lit := Pick(r, floatLiterals)
+				f, _ := strconv.ParseFloat(lit, 64)
+				return Val{K: "f", F: f, S: "lit:" + lit}, true
 			}
 			switch {
 			case x < 0.2:
@@ -529,6 +540,36 @@ func injectExotic(r *Rng, v Val, depth int) (Val, bool) {
 	return Val{K: "x", S: Pick(r, ExoticNames)}, depth > 0
 }
 
+// text a caller may well hold for a number, a boolean or a time: each is an ordinary string; the worst it can be is "not coercible"
+var hostileText = []string{
+	"e5", "E10", "e-3", "e+0", "1e", "1e+", "1e3", "1E3", "2.5e2", "50e-1", "12.0", "5.", ".5", ".", "+", "-", "+-1", "--1", "+5", "-.5e-", "0x", "0x1f", "1_0", "_",
+	"١٢", "１", "1e400", "-1e400", "1e-400", "0e0", "00", "-0", "+0", "0.0", "9223372036854775808", "-9223372036854775809", "99999999999999999999999999",
+	"Infinity", "-Infinity", "infinity", "nan", "NAN", "Inf", "+Inf", "t", "T", "F", "f", "on", "off", "ON", "yes", "no", "TRUE", "True", "tRuE", "1.0", "0.0", "01",
+	"2024-01-01", "2024-01-01T00:00:00", "2024-01-01T24:00:00Z", "2024-02-30T00:00:00Z", "2024-01-01T00:00:00+25:00", "2024-01-01T00:00:00.Z", "T", "Z", "0000-00-00T00:00:00Z",
+	"2024-01-01T00:00:00.123456789123Z", "-2024-01-01T00:00:00Z", "12024-01-01T00:00:00Z", "1e", "e", "E", "1e1e1", "1..2", "1,5", "1 000", "\u0031", "%31", "0b1", "0o7", "1e18", "1e19", "12e-1",
+}
+
+// injectHostileText replaces one leaf of the record by such a text.
+func injectHostileText(r *Rng, v Val) Val {
+	switch v.K {
+	case "m":
+		if len(v.M) > 0 {
+			c := v.Clone()
+			i := r.Intn(len(c.M))
+			c.M[i].V = injectHostileText(r, c.M[i].V)
+			return c
+		}
+	case "l":
+		if len(v.L) > 0 {
+			c := v.Clone()
+			i := r.Intn(len(c.L))
+			c.L[i] = injectHostileText(r, c.L[i])
+			return c
+		}
+	}
+	return VS(Pick(r, hostileText))
+}
+
 func genC06(r *Rng, tier string) *World {
 	w := &World{Prop: "C06", Cfg: DrawDecCfg(r), Params: map[string]int{}}
 	c := DrawGenCfg(r, "parse")
@@ -568,6 +609,14 @@ func genC06(r *Rng, tier string) *World {
 	if r.P(0.5) {
 		w.Family = "values"
 		nv, deep := injectExotic(r, v, 0)
+		if r.P(0.3) {
+			// no exotic Go value this time: an ordinary string that merely looks like a number, a boolean or a time
+			nv, deep = injectHostileText(r, v), true
+			if r.P(0.5) {
+				nv = injectHostileText(r, nv)
+			}
+			w.Params["hostile_text"] = 1
+		}
 		op.Input = nv
 		// %v of these prints an address: what the library then computes (a string holding that address) is
 		// allocation-dependent by nature, so such worlds are replayed by verdict only, not by event digest
@@ -706,6 +755,9 @@ func runC06(x *X) *Violation {
 			}
 			if w.P("long_key") == 1 {
 				x.Probes["long_key"]++
+			}
+			if w.P("hostile_text") == 1 {
+				x.Probes["hostile_text"]++
 			}
 		}
 	}
